@@ -227,3 +227,149 @@ func (p *Pool) Put(x any) {
 	p.items = append(p.items, x)
 	p.mu.Unlock()
 }
+
+// Map is sync.Map behind the seam. The real one is safe and, for everything but Range, a
+// deterministic function of the calls made on it; Range however visits the entries in the order of
+// Go's randomised map iteration, which no seed decides. Here the entries keep their insertion
+// order and Range visits them in a permutation of it chosen by MapRangeMode (0: insertion order),
+// so a result that depends on the order replays and can be told apart from one that does not.
+type Map struct {
+	mu    sync.Mutex // a real mutex: never held across a kernel call or a callback
+	m     map[any]any
+	order []any
+}
+
+// MapRangeMode, when set (by the harness), picks the order of the next Range: 0 insertion order,
+// 1 reversed, 2 rotated by one, larger values a pseudo-random permutation derived from the value.
+var MapRangeMode func() uint32
+
+func (m *Map) Load(key any) (value any, ok bool) {
+	m.mu.Lock()
+	defer m.mu.Unlock()
+	value, ok = m.m[key]
+	return
+}
+
+func (m *Map) storeLocked(key, value any) {
+	if m.m == nil {
+		m.m = map[any]any{}
+	}
+	if _, ok := m.m[key]; !ok {
+		m.order = append(m.order, key)
+	}
+	m.m[key] = value
+}
+
+func (m *Map) deleteLocked(key any) {
+	if _, ok := m.m[key]; !ok {
+		return
+	}
+	delete(m.m, key)
+	for i, k := range m.order {
+		if k == key {
+			m.order = append(m.order[:i:i], m.order[i+1:]...)
+			break
+		}
+	}
+}
+
+func (m *Map) Store(key, value any) {
+	m.mu.Lock()
+	defer m.mu.Unlock()
+	m.storeLocked(key, value)
+}
+
+func (m *Map) Clear() {
+	m.mu.Lock()
+	defer m.mu.Unlock()
+	m.m, m.order = nil, nil
+}
+
+func (m *Map) LoadOrStore(key, value any) (actual any, loaded bool) {
+	m.mu.Lock()
+	defer m.mu.Unlock()
+	if v, ok := m.m[key]; ok {
+		return v, true
+	}
+	m.storeLocked(key, value)
+	return value, false
+}
+
+func (m *Map) LoadAndDelete(key any) (value any, loaded bool) {
+	m.mu.Lock()
+	defer m.mu.Unlock()
+	value, loaded = m.m[key]
+	m.deleteLocked(key)
+	return
+}
+
+func (m *Map) Delete(key any) { m.LoadAndDelete(key) }
+
+func (m *Map) Swap(key, value any) (previous any, loaded bool) {
+	m.mu.Lock()
+	defer m.mu.Unlock()
+	previous, loaded = m.m[key]
+	m.storeLocked(key, value)
+	return
+}
+
+func (m *Map) CompareAndSwap(key, old, new any) (swapped bool) {
+	m.mu.Lock()
+	defer m.mu.Unlock()
+	if v, ok := m.m[key]; ok && v == old {
+		m.m[key] = new
+		return true
+	}
+	return false
+}
+
+func (m *Map) CompareAndDelete(key, old any) (deleted bool) {
+	m.mu.Lock()
+	defer m.mu.Unlock()
+	if v, ok := m.m[key]; ok && v == old {
+		m.deleteLocked(key)
+		return true
+	}
+	return false
+}
+
+func (m *Map) Range(f func(key, value any) bool) {
+	m.mu.Lock()
+	keys := append([]any(nil), m.order...)
+	m.mu.Unlock()
+	var md uint32
+	if MapRangeMode != nil && len(keys) > 1 {
+		md = MapRangeMode()
+	}
+	switch {
+	case md == 0 || len(keys) < 2:
+	case md == 1:
+		for i, j := 0, len(keys)-1; i < j; i, j = i+1, j-1 {
+			keys[i], keys[j] = keys[j], keys[i]
+		}
+	case md == 2:
+		first := keys[0]
+		copy(keys, keys[1:])
+		keys[len(keys)-1] = first
+	default:
+		s := uint64(md)*0x9e3779b97f4a7c15 + uint64(len(keys))
+		for i := len(keys) - 1; i > 0; i-- {
+			s += 0x9e3779b97f4a7c15
+			z := s
+			z = (z ^ (z >> 30)) * 0xbf58476d1ce4e5b9
+			z = (z ^ (z >> 27)) * 0x94d049bb133111eb
+			z ^= z >> 31
+			j := int(z % uint64(i+1))
+			keys[i], keys[j] = keys[j], keys[i]
+		}
+	}
+	for _, k := range keys {
+		v, ok := m.Load(k)
+		if !ok {
+			continue
+		}
+		if !f(k, v) {
+			return
+		}
+	}
+}
